@@ -24,6 +24,8 @@ def _units(w):
             Inst("r", Prim("R", dict(r=2)), {"p": Sig("a"), "n": Sig("b")}),
             Inst("c", cell, {"a": Sig("bus"), "b": BRef("bb", ("y",))}),
             Inst("c2", cell, {"a": BRef("bb", ("x",)), "b": Sig("a")})]),
+        # a unit whose port carries the name the generator likes for its own internal net
+        5: Ext("XI", [("i", 1), ("o", 1), ("g", 1)], params=None),
     }
 
 
@@ -41,14 +43,23 @@ def _expected(u, n, p1, p2, name):
         conns = {}
         for p, (kind, x) in pt.items():
             if p == p1:
-                conns[p] = Sig(p1) if k == 0 else Idx(Sig("i"), k - 1)
+                conns[p] = Sig(p1) if k == 0 else Idx(Sig("chain_"), k - 1)
             elif p == p2:
-                conns[p] = Sig(p2) if k == n - 1 else Idx(Sig("i"), k)
+                conns[p] = Sig(p2) if k == n - 1 else Idx(Sig("chain_"), k)
             else:
                 conns[p] = Sig(p) if kind == "sig" else Bun(p)
         insts.append(Inst("inner" if n == 1 else f"units_{k}", u, conns))
-    sigs = [("i", n - 1)] if n > 1 else []
+    sigs = [("chain_", n - 1)] if n > 1 else []  # (the private bus; its name is the generator's business)
     return Mod(name, ports=ports, sigs=sigs, buns=buns, insts=insts)
+
+
+def _same_interface(m, ud):
+    """'The generated Module includes the same ports as unit': names of signal and bundle ports, before elaboration"""
+    with env.notrace():
+        have = sorted(list(m.ports.keys()) + list(m.bundle_ports.keys()))
+        want = sorted(port_table(ud).keys())
+        dc.LAST["why"] = f"interface {have} != unit's {want}"
+        return have == want
 
 
 class _Duck:
@@ -65,12 +76,16 @@ def _series(u, n, i, j, by_name, w):
     from hdl21.generators import Series
     hu = Builder().target(ud)
     conns = (p1, p2) if by_name else (hu.ports[p1], hu.ports[p2])
+    if isinstance(hu, h.Module) and not by_name:
+        h.elaborate(hu)  # the unit has been elaborated (its bundle port flattened) before the generator sees it
     if env.SYM:
         m = Series.func(_Duck(unit=hu, conns=conns, nser=n))  # n stays symbolic through the generator body
         if m.name is None:
             m.name = "S"
     else:
         m = Series(unit=hu, conns=conns, nser=n)
+    if not _same_interface(m, ud):
+        return False
     pkg = h.to_proto(m)
     exp = env.deep_realize(_expected(ud, n, p1, p2, "S"))
     u = env.realize(u)
@@ -82,12 +97,12 @@ def _series(u, n, i, j, by_name, w):
 
 
 @harness("C19", also=("C06", "C11"), args="u: int, n: int, i: int, j: int, by_name: bool, w: int",
-         pre=["0 <= u <= 4", "1 <= n", "0 <= i", "0 <= j", "i != j", "1 <= w <= 2",
-              "i < (2, 3, 4, 3, 2)[u] and j < (2, 3, 4, 3, 2)[u]"],
-         tiers={"quick": {"timeout": 170, "pre": ["n <= 3", "w == 1 or u == 4", "by_name == True or u == 0 or u == 4"], "parts": parts_over("u", range(5))},
-                "thorough": {"timeout": 600, "pre": ["n <= 6"], "parts": [(f"u{u}_i{i}_n{n}", f"u == {u} and i == {i} and n == {n}") for u, cnt in enumerate((2, 3, 4, 3, 2)) for i in range(cnt) for n in range(1, 7)]}},
+         pre=["0 <= u <= 5", "1 <= n", "0 <= i", "0 <= j", "i != j", "1 <= w <= 2",
+              "i < (2, 3, 4, 3, 2, 3)[u] and j < (2, 3, 4, 3, 2, 3)[u]"],
+         tiers={"quick": {"timeout": 170, "pre": ["n <= 3", "w == 1 or u == 4", "by_name == True or u == 0 or u == 4"], "parts": parts_over("u", range(6))},
+                "thorough": {"timeout": 600, "pre": ["n <= 6"], "parts": [(f"u{u}_i{i}_n{n}", f"u == {u} and i == {i} and n == {n}") for u, cnt in enumerate((2, 3, 4, 3, 2, 3)) for i in range(cnt) for n in range(1, 7)]}},
          sample=(2, 3, 0, 2, True, 1),
-         bounds="nser n in 1..3 (quick) / 1..6 (thorough); unit cells: R, 3-terminal resistor, Mos, external module, a module with a bus port and a bundle port; every ordered pair of distinct scalar unit ports as the series pair; given by name or by Signal",
+         bounds="nser n in 1..3 (quick) / 1..6 (thorough); unit cells: R, 3-terminal resistor, Mos, external module, a module with a bus port and a bundle port, an external module with a port named `i`; every ordered pair of distinct scalar unit ports as the series pair; given by name or by Signal (module units given by Signal are elaborated before the call); the generated module's port names checked before elaboration",
          generalises="n (symbolic through Series.func, the instance array and slice resolution); port-pair selectors", outside="n > 6; series ports wider than one bit")
 def series(u, n, i, j, by_name, w):
     return _series(u, n, i, j, by_name, w)
@@ -110,9 +125,9 @@ def mosstack(n):
         return ok
 
 
-@harness("C19", also=("C06", "C11"), args="u: int, w: int, pre_elab: bool", pre=["0 <= u <= 4", "1 <= w <= 3"],
+@harness("C19", also=("C06", "C11"), args="u: int, w: int, pre_elab: bool", pre=["0 <= u <= 5", "1 <= w <= 3"],
          tiers={"quick": {"timeout": 150, "pre": ["w <= 2"]}, "thorough": {"timeout": 600}}, sample=(4, 2, True),
-         bounds="Wrapper(unit) for the 5 unit cells (bus width w<=2 / <=3), unit fresh or already elaborated",
+         bounds="Wrapper(unit) for the 6 unit cells (bus width w<=2 / <=3), unit fresh or already elaborated",
          generalises="bus width", outside="")
 def wrapper(u, w, pre_elab):
     env.reset_all()
@@ -122,6 +137,8 @@ def wrapper(u, w, pre_elab):
     if pre_elab and isinstance(hu, h.Module):
         h.elaborate(hu)
     m = Wrapper(hu)
+    if not _same_interface(m, ud):
+        return False
     pkg = h.to_proto(m)
     exp = env.deep_realize(_expected(ud, 1, "__none__", "__none__", "W"))
     u = env.realize(u)
